@@ -51,7 +51,36 @@ def _ite(c, a, b):
     return a if c else b
 
 
+# (first year, last year): when set by a harness, years are known to lie in
+# this range and the calendar functions use tables over it (piecewise
+# constant / piecewise linear with constant break points) instead of the
+# 400/100/4/1-year division arithmetic, which the solver handles far better.
+# A value outside the range aborts the path (the bound is a stated assumption).
+YEAR_RANGE = None
+FORK_YEARS = False
+
+
+def _dby_c(y):
+    y1 = y - 1
+    return y1 * 365 + y1 // 4 - y1 // 100 + y1 // 400
+
+
+def _leap_c(y):
+    return y % 4 == 0 and (y % 100 != 0 or y % 400 == 0)
+
+
+def _assume_year(y):
+    lo, hi = YEAR_RANGE
+    symx.cur().require(z3.And(y.e >= lo, y.e <= hi),
+                       'year outside the declared range %d..%d' % (lo, hi))
+
+
 def is_leap(y):
+    if _is_sym(y) and YEAR_RANGE:
+        lo, hi = YEAR_RANGE
+        _assume_year(y)
+        return SymBool(z3.Or(*[y.e == k for k in range(lo, hi + 1)
+                               if _leap_c(k)]))
     if _is_sym(y):
         return SymBool(z3.And(y.e % 4 == 0,
                               z3.Or(y.e % 100 != 0, y.e % 400 == 0)))
@@ -59,6 +88,13 @@ def is_leap(y):
 
 
 def days_before_year(y):
+    if _is_sym(y) and YEAR_RANGE:
+        lo, hi = YEAR_RANGE
+        _assume_year(y)
+        e = z3.IntVal(_dby_c(hi))
+        for k in range(hi - 1, lo - 1, -1):
+            e = z3.If(y.e == k, _dby_c(k), e)
+        return SymInt(e)
     y1 = y - 1
     return y1 * 365 + y1 // 4 - y1 // 100 + y1 // 400
 
@@ -82,8 +118,31 @@ def ymd2ord(y, m, d):
     return days_before_year(y) + days_before_month(y, m) + d
 
 
+AXIOMS = True
+
+
 def ord2yj(n):
     """ordinal -> (year, day of year 1..366)"""
+    if _is_sym(n) and YEAR_RANGE:
+        lo, hi = YEAR_RANGE
+        symx.cur().require(
+            z3.And(n.e > _dby_c(lo), n.e <= _dby_c(hi + 1)),
+            'date outside the declared year range %d..%d' % (lo, hi))
+        if FORK_YEARS:
+            # case split on the year (solver-driven): with the year concrete
+            # everything downstream is linear
+            for k in range(lo, hi + 1):
+                if bool(SymBool(n.e <= _dby_c(k + 1))):
+                    return k, n - _dby_c(k)
+            raise symx.PathAbort()
+        ye = z3.IntVal(hi)
+        je = n.e - _dby_c(hi)
+        for k in range(hi - 1, lo - 1, -1):
+            c = n.e <= _dby_c(k + 1)
+            ye = z3.If(c, k, ye)
+            je = z3.If(c, n.e - _dby_c(k), je)
+        return SymInt(ye), SymInt(je)
+    n0 = n
     n = n - 1
     n400, n = n // 146097, n % 146097
     n100, n = n // 36524, n % 36524
@@ -92,7 +151,19 @@ def ord2yj(n):
     year = n400 * 400 + n100 * 100 + n4 * 4 + n1 + 1
     if _is_sym(year):
         last = SymBool(z3.Or(symx._num(n1)[1] == 4, symx._num(n100)[1] == 4))
-        return _ite(last, year - 1, year), _ite(last, 366, n + 1)
+        yy, jj = _ite(last, year - 1, year), _ite(last, 366, n + 1)
+        if AXIOMS and symx.CUR is not None:
+            # fact about this algorithm (exhaustively validated against
+            # CPython for 1899-01-01..2101-12-31 by tools/
+            # validate_symdatetime): it inverts year/day-of-year -> ordinal.
+            # Stated to the solver so that it does not have to rediscover
+            # the 400/100/4/1-year cycle arithmetic.
+            ord0 = symx._num(n0)[1]
+            symx.CUR.assume(z3.Implies(
+                z3.And(ord0 >= 693231, ord0 <= 767375),
+                z3.And(symx._num(days_before_year(yy))[1] + jj.e == ord0,
+                       jj.e >= 1, jj.e <= 366)), check=False)
+        return yy, jj
     if n1 == 4 or n100 == 4:
         return year - 1, 366
     return year, n + 1
@@ -154,7 +225,9 @@ def _round_half_even_us(x):
 
 
 class timedelta(object):
-    __slots__ = ('us',)
+    # sec: whole seconds when the value is known to be a whole number of
+    # seconds (us == sec * 10**6 structurally), else None
+    __slots__ = ('us', 'sec')
 
     def __init__(self, days=0, seconds=0, microseconds=0, milliseconds=0,
                  minutes=0, hours=0, weeks=0):
@@ -171,16 +244,45 @@ class timedelta(object):
                 val = val.__symint__()
             tot = tot + val * mult
         self.us = _round_half_even_us(tot)
+        # whole seconds, when every component is structurally a whole
+        # number of seconds (integers, or exact ratios n/d with d dividing
+        # the unit's length in seconds)
+        sec = 0
+        for val, mult in ((weeks, 604800), (days, 86400), (hours, 3600),
+                          (minutes, 60), (seconds, 1)):
+            if isinstance(val, (np.floating, float)):
+                val = fractions.Fraction(float(val))
+            if hasattr(val, '__symint__'):
+                val = val.__symint__()
+            if isinstance(val, (int, np.integer, SymInt)) and \
+                    not isinstance(val, bool):
+                sec = sec + (int(val) if not _is_sym(val) else val) * mult
+                continue
+            r = symx._ratio_of(val)
+            if r is not None and mult % r[1] == 0:
+                sec = sec + SymInt(r[0]) * (mult // r[1])
+                continue
+            sec = None
+            break
+        if sec is not None and (microseconds != 0 or milliseconds != 0):
+            sec = None
+        self.sec = sec
 
     @classmethod
-    def _of(cls, us):
+    def _of(cls, us, sec=None):
         o = object.__new__(cls)
         o.us = us
+        o.sec = sec if sec is not None else (
+            us // 10 ** 6 if isinstance(us, int) and us % 10 ** 6 == 0
+            else None)
         return o
 
     def total_seconds(self):
+        if self.sec is not None and _is_sym(self.sec):
+            return SymReal(z3.ToReal(self.sec.e), (self.sec.e, 1))
         if _is_sym(self.us):
-            return SymReal(z3.ToReal(self.us.e) / 10 ** 6)
+            return SymReal(z3.ToReal(self.us.e) / 10 ** 6,
+                           (self.us.e, 10 ** 6))
         return self.us / 10 ** 6
 
     @property
@@ -197,7 +299,7 @@ class timedelta(object):
 
     def __add__(self, o):
         if isinstance(o, timedelta):
-            return timedelta._of(self.us + o.us)
+            return timedelta._of(self.us + o.us, _secsum(self.sec, o.sec))
         if isinstance(o, np.ndarray):
             return _arr([self + x for x in o.reshape(-1)], o.shape)
         return NotImplemented
@@ -205,18 +307,22 @@ class timedelta(object):
 
     def __sub__(self, o):
         if isinstance(o, timedelta):
-            return timedelta._of(self.us - o.us)
+            return timedelta._of(self.us - o.us,
+                                 _secsum(self.sec, o.sec, -1))
         return NotImplemented
 
     def __neg__(self):
-        return timedelta._of(-self.us)
+        return timedelta._of(-self.us, None if self.sec is None
+                             else -self.sec)
 
     def __mul__(self, o):
         if isinstance(o, np.ndarray):
             return _arr([self * x for x in o.reshape(-1)], o.shape)
         if isinstance(o, (int, np.integer, SymInt)) and \
                 not isinstance(o, bool):
-            return timedelta._of(self.us * (int(o) if not _is_sym(o) else o))
+            k = int(o) if not _is_sym(o) else o
+            return timedelta._of(self.us * k, None if self.sec is None
+                                 else self.sec * k)
         if isinstance(o, (float, np.floating, SymReal)):
             v = self.us * (fractions.Fraction(float(o))
                            if not _is_sym(o) else o)
@@ -248,6 +354,8 @@ class timedelta(object):
     def _cmp(self, o, f):
         if not isinstance(o, timedelta):
             return NotImplemented
+        if self.sec is not None and o.sec is not None:
+            return f(self.sec, o.sec)
         return f(self.us, o.us)
 
     def __eq__(self, o):
@@ -281,6 +389,25 @@ class timedelta(object):
         return 'symtimedelta(us=%r)' % (self.us,)
 
 
+def _whole_seconds(us):
+    """seconds if us is structurally a multiple of 10**6, else None"""
+    if isinstance(us, int):
+        return us // 10 ** 6 if us % 10 ** 6 == 0 else None
+    if isinstance(us, SymInt):
+        e = z3.simplify(us.e)
+        if e.decl().kind() == z3.Z3_OP_MUL and e.num_args() == 2:
+            a, b = e.arg(0), e.arg(1)
+            if z3.is_int_value(a) and a.as_long() % 10 ** 6 == 0:
+                return SymInt(b * (a.as_long() // 10 ** 6))
+    return None
+
+
+def _secsum(a, b, sign=1):
+    if a is None or b is None:
+        return None
+    return a + b if sign > 0 else a - b
+
+
 def _arr(items, shape):
     a = np.empty(len(items), dtype=object)
     for i, x in enumerate(items):
@@ -303,7 +430,7 @@ class SymStrftime(object):
 
 
 class datetime(object):
-    __slots__ = ('us', 'tzinfo')
+    __slots__ = ('us', 'tzinfo', 'sec')
 
     def __init__(self, year, month=None, day=None, hour=0, minute=0,
                  second=0, microsecond=0, tzinfo=None):
@@ -313,6 +440,8 @@ class datetime(object):
         o = ymd2ord(y, m, d)
         self.us = (o - 1) * US_DAY + H * 3600 * 10 ** 6 + M * 60 * 10 ** 6 \
             + S * 10 ** 6 + U
+        self.sec = (o - 1) * 86400 + H * 3600 + M * 60 + S \
+            if isinstance(U, int) and U == 0 else None
         self.tzinfo = tzinfo
 
     @staticmethod
@@ -349,10 +478,13 @@ class datetime(object):
                 nm + ' out of range')
 
     @classmethod
-    def _of(cls, us, tz=None):
+    def _of(cls, us, tz=None, sec=None):
         o = object.__new__(cls)
         o.us = us
         o.tzinfo = tz
+        o.sec = sec if sec is not None else (
+            us // 10 ** 6 if isinstance(us, int) and us % 10 ** 6 == 0
+            else None)
         return o
 
     @classmethod
@@ -378,6 +510,8 @@ class datetime(object):
 
     # ---- fields
     def _ord(self):
+        if self.sec is not None:
+            return self.sec // 86400 + 1
         return self.us // US_DAY + 1
 
     def _yj(self):
@@ -399,25 +533,34 @@ class datetime(object):
 
     @property
     def hour(self):
+        if self.sec is not None:
+            return (self.sec % 86400) // 3600
         return (self.us % US_DAY) // (3600 * 10 ** 6)
 
     @property
     def minute(self):
+        if self.sec is not None:
+            return (self.sec % 3600) // 60
         return (self.us % (3600 * 10 ** 6)) // (60 * 10 ** 6)
 
     @property
     def second(self):
+        if self.sec is not None:
+            return self.sec % 60
         return (self.us % (60 * 10 ** 6)) // 10 ** 6
 
     @property
     def microsecond(self):
+        if self.sec is not None:
+            return 0
         return self.us % 10 ** 6
 
     def replace(self, tzinfo=True, **kw):
         if kw:
             return self._from_real(self._real().replace(**kw))
         return datetime._of(self.us, None if tzinfo is None else
-                            (self.tzinfo if tzinfo is True else tzinfo))
+                            (self.tzinfo if tzinfo is True else tzinfo),
+                            self.sec)
 
     def astimezone(self, tz=None):
         if self.tzinfo is None:
@@ -438,12 +581,12 @@ class datetime(object):
     def strftime(self, fmt):
         if not _is_sym(self.us):
             return self._real().strftime(fmt)
-        y, j = self._yj()
-        if fmt == '%Y%j':
-            return SymStrftime(y * 1000 + j)
         if fmt == '%H%M%S':
             return SymStrftime(self.hour * 10000 + self.minute * 100 +
                                self.second)
+        y, j = self._yj()
+        if fmt == '%Y%j':
+            return SymStrftime(y * 1000 + j)
         if fmt == '%Y':
             return SymStrftime(y)
         if fmt == '%j':
@@ -469,8 +612,8 @@ class datetime(object):
                 if not bool(ok):
                     raise ValueError('day of year out of range')
                 o = days_before_year(y) + j
-                us = (o - 1) * US_DAY + (H * 3600 + M * 60 + S) * 10 ** 6
-                return cls._of(us, timezone.utc)
+                sec = (o - 1) * 86400 + H * 3600 + M * 60 + S
+                return cls._of(sec * 10 ** 6, timezone.utc, sec)
             raise NotImplementedError('strptime of symbolic text %r' % fmt)
         return cls._from_real(_dt.datetime.strptime(text, fmt))
 
@@ -484,7 +627,8 @@ class datetime(object):
     # ---- arithmetic
     def __add__(self, o):
         if isinstance(o, timedelta):
-            return datetime._of(self.us + o.us, self.tzinfo)
+            return datetime._of(self.us + o.us, self.tzinfo,
+                                _secsum(self.sec, o.sec))
         if isinstance(o, np.ndarray):
             return _arr([self + x for x in o.reshape(-1)], o.shape)
         return NotImplemented
@@ -492,14 +636,23 @@ class datetime(object):
 
     def __sub__(self, o):
         if isinstance(o, timedelta):
-            return datetime._of(self.us - o.us, self.tzinfo)
+            return datetime._of(self.us - o.us, self.tzinfo,
+                                _secsum(self.sec, o.sec, -1))
         if isinstance(o, datetime):
             if (self.tzinfo is None) != (o.tzinfo is None):
                 raise TypeError("can't subtract offset-naive and "
                                 "offset-aware datetimes")
             a = self.us - (self.tzinfo.offset.us if self.tzinfo else 0)
             b = o.us - (o.tzinfo.offset.us if o.tzinfo else 0)
-            return timedelta._of(a - b)
+            sec = None
+            if self.sec is not None and o.sec is not None and \
+                    (self.tzinfo is None or
+                     self.tzinfo.offset.sec is not None) and \
+                    (o.tzinfo is None or o.tzinfo.offset.sec is not None):
+                sec = (self.sec - (self.tzinfo.offset.sec
+                                   if self.tzinfo else 0)) - \
+                    (o.sec - (o.tzinfo.offset.sec if o.tzinfo else 0))
+            return timedelta._of(a - b, sec)
         if isinstance(o, np.ndarray):
             return _arr([self - x for x in o.reshape(-1)], o.shape)
         return NotImplemented
@@ -507,9 +660,22 @@ class datetime(object):
     def _utc(self):
         return self.us - (self.tzinfo.offset.us if self.tzinfo else 0)
 
+    def _utc_sec(self):
+        """whole seconds since 0001-01-01 UTC when known exactly"""
+        if self.sec is None:
+            return None
+        if self.tzinfo is None:
+            return self.sec
+        if self.tzinfo.offset.sec is None:
+            return None
+        return self.sec - self.tzinfo.offset.sec
+
     def _cmp(self, o, f):
         if not isinstance(o, datetime):
             return NotImplemented
+        a, b = self._utc_sec(), o._utc_sec()
+        if a is not None and b is not None:
+            return f(a, b)
         return f(self._utc(), o._utc())
 
     def __eq__(self, o):
